@@ -131,6 +131,12 @@ var templates = []string{
 	"boomv(%s...)", "go boomv(%s...)", "defer boomv(%s...)", "go boomv(%s, %s...)", "go takesStrs(%s...)", "go %s(%s, %s...)",
 	"si.A = %s\n{si: 1}", "si.A = %s\nm[si] = 1", "si.B = %s\ndelete(m, si)", "si.A = %s\nm[si]", "si.A = %s\nmap[interface]int64{si: 1}", "si.A = %s\n(si in [si])", "si.A = %s\nsi == si", "si.A = %s\nswitch si { case si: 1 }",
 	"*ty = %s", "*ty = *make(type T2, %s)", "*make(type T3, %s) = nil", "(*ty).t", "x = *ty\nx.t = %s", "ty.zz = %s", "ty(%s)", "make(ty)", "for x in ty { x }", "ty + %s", "ty == %s", "%s[ty]", "m[ty] = %s", "{ty: %s}", "typeOf(*ty)",
+	// containers changed while they are being iterated / indexed / sliced
+	"for k, v in m { delete(m, \"a\"); delete(m, \"b\"); [k, v] }", "for k, v in %s { delete(%s, k); delete(%s, %s); x = v }", "for k in tm { tm[%s] = 1; delete(tm, k) }",
+	"for x in l { l = []; %s }", "for x in st.C { st.C = []; [x] }", "st.C = [1, 2, 3]\nfor x in st.C { st.C = st.C[:1]; [x] }", "ll[0] = [1, 2, 3]\nfor x in ll[0] { ll[0] = []; [x] }",
+	"st.C = [1, 2, 3]\nfunc sh() { st.C = []; return %s }\nst.C[sh():]", "st.C = [1, 2, 3]\nfunc sh() { st.C = []; return %s }\nst.C[0:sh()]", "st.C = [1, 2, 3]\nfunc sh() { st.C = []; return %s }\nst.C[0:2:sh()]",
+	"st.C = [1, 2, 3]\nfunc sh() { st.C = []; return %s }\nst.C[sh()]", "st.C = [1, 2, 3]\nfunc sh() { st.C = []; return %s }\nst.C[sh()] = 5", "st.C = [1, 2, 3]\nfunc sh() { st.C = []; return %s }\nst.C[sh():] = [9]",
+	"ll[0] = [1, 2, 3]\nfunc sh() { ll[0] = []; return %s }\nll[0][sh():]", "ll[0] = [1, 2, 3]\nfunc sh() { ll[0] = []; return %s }\nll[0][sh()]", "s2 = \"abc\"\nfunc sh() { s2 = \"\"; return %s }\ns2[sh():]",
 	"x = [%s]\n{x[0]: 1}", "x = {\"k\": %s}\nm[x.k] = 2", "x = id(%s)\nm[x]", "x = %s\ndelete(m, x)\ndelete(im, x)\ndelete(tm, x)",
 	"try { %s(%s) } catch e { e.Error() }", "try { throw %s } catch e { e = %s }", "module m2 { a = %s }; m2.a(%s)", "x = %s; x.y = %s", "x = %s; x[0] = %s; x",
 }
